@@ -1,5 +1,6 @@
 import DadiVerif.Lemmas.DataDictCorr
 import DadiVerif.Lemmas.DataDictText
+import DadiVerif.Lemmas.DataDictGt
 /-!
 # C13 — genotype data become the spectrum and statistics that direct counting gives
 
@@ -1605,5 +1606,43 @@ theorem C13_source_shape :
     (∀ p n i, weightArgs p n i = (p, n, i)) ∧ biallelicLen = 2 ∧ (∀ a b, successfulCalls a b = a + b) ∧
     keyBuilt = ["successful_calls", "derived_calls", "this_snp_polarized"] := by
   refine ⟨rfl, rfl, rfl, rfl, rfl, rfl, rfl, rfl, rfl, rfl, rfl, rfl, fun _ _ _ => rfl, rfl, fun _ _ => rfl, rfl⟩
+
+/-! ## round 7: the genotype-token decisions of both branches of `make_data_dict_vcf` (generated tests) -/
+
+/-- **who can be drawn when sub-sampling**: the generated test of the sub-sampling branch (`vcfSubDrawable`, translated from the `if` in
+    front of `subsample_dict[pop].append(gt)`) holds of a sample iff NO character of its GT text is the missing allele '.' — wherever
+    it stands (`0/.`, `./1`, `.|0`, `.`, `0/./1`), whatever the separator and the ploidy — and its depth is neither `0` nor `.`; on the
+    texts of an abstract individual it is the model's `complete` (the predicate every sub-sampling theorem above is about), i.e. an
+    individual is drawable iff no allele of its genotype is missing and it has reads.  A test that looks at the first allele only, at
+    the whole text only (`gt != './.'`) or at one separator only changes the generated definition and breaks this theorem. -/
+theorem C13_vcf_called_individual :
+    (∀ (gt : List Char) (dp : Option (List Char)),
+      vcfSubDrawable gt dp = true ↔ ('.' ∉ gt ∧ dp ≠ some "0".toList ∧ dp ≠ some ".".toList)) ∧
+    (∀ x : Indiv, indivDrawable x = complete x) ∧
+    (∀ x : Indiv, indivDrawable x = true ↔ (∀ a ∈ x.alleles, a ≠ 9) ∧ x.nodata = false) :=
+  ⟨vcfSubDrawable_iff, indivDrawable_eq_complete, fun x => by rw [indivDrawable_eq_complete, complete_iff]⟩
+
+/-- half calls in either position, a haploid no-call, a polyploid call with one allele missing, a depth of 0 or `.`: not drawable;
+    complete diploid / haploid / triploid calls, phased or not, with or without a depth: drawable -/
+example : (["0/.", "1|.", "./1", ".|0", "./.", ".", "0/./1", "././."].map fun g => vcfSubDrawable g.toList none) = List.replicate 8 false ∧
+    (["0/1", "1|0", "0", "1", "0/1/1", "1|1|0|0"].map fun g => vcfSubDrawable g.toList (some "12".toList)) = List.replicate 6 true ∧
+    vcfSubDrawable "0/1".toList (some "0".toList) = false ∧ vcfSubDrawable "0/1".toList (some ".".toList) = false ∧
+    vcfSubDrawable "0/1".toList none = true ∧
+    indivDrawable ⟨some 0, [0, 9], false⟩ = false ∧ indivDrawable ⟨some 0, [9, 1], false⟩ = false ∧
+    indivDrawable ⟨some 0, [0, 1], false⟩ = true ∧ indivDrawable ⟨some 0, [0, 1], true⟩ = false := by
+  refine ⟨by decide, by decide, by decide, by decide, by decide, by decide, by decide, by decide, by decide⟩
+
+/-- **which samples the branch without sub-sampling skips**: exactly those whose AD text is `0,0` or whose DP text is `0` or `.`
+    (generated `vcfNoSubSkip`); the GT text plays no part — every called chromosome of the others is counted (`gtCalls`) -/
+theorem C13_vcf_nosub_skip (ad dp : Option (List Char)) :
+    vcfNoSubSkip ad dp = true ↔ (ad = some "0,0".toList ∨ dp = some "0".toList ∨ dp = some ".".toList) :=
+  vcfNoSubSkip_iff ad dp
+
+/-- both branches read the alleles at every second character of GT and count `0` as REF, `1` as ALT (generated stride and tokens):
+    a half call contributes its one called chromosome, a triploid call three, an allele index ≥ 2 nothing -/
+example : vcfGtStride = 2 ∧ vcfGtRefTok = '0' ∧ vcfGtAltTok = '1' ∧
+    gtCalls "0/.".toList = (1, 0) ∧ gtCalls ".|1".toList = (0, 1) ∧ gtCalls "0/1/1".toList = (1, 2) ∧ gtCalls "1".toList = (0, 1) ∧
+    gtCalls "./.".toList = (0, 0) ∧ gtCalls "0|2".toList = (1, 0) ∧ gtCalls (gtText [0, 1, 9, 1]) = (1, 2) := by
+  refine ⟨rfl, rfl, rfl, by decide, by decide, by decide, by decide, by decide, by decide, by decide⟩
 
 end DadiVerif
